@@ -35,6 +35,8 @@ type c04Case struct {
 	Ints  []int64  `json:"ints,omitempty"`
 	Strs  []string `json:"strs,omitempty"` // hex of byte strings
 	N     int      `json:"n,omitempty"`    // number of boolean values
+	// Enc = "foreign": a conforming stream that Go's encoders did not write
+	Foreign *foreignCase `json:"foreign,omitempty"`
 }
 
 var dirty = func() []byte {
@@ -94,14 +96,21 @@ func uList(vs []uint64) string {
 }
 
 type checker struct {
-	c    *core.Ctx
-	cs   *c04Case
-	ok   bool
-	fuzz int // malformed streams derived from the case: 0 none, 1 sampled, 2 also exhaustive for short encodings
+	c      *core.Ctx
+	cs     *c04Case
+	ok     bool
+	fuzz   int // malformed streams derived from the case: 0 none, 1 sampled, 2 also exhaustive for short encodings
+	cutRng *rand.Rand
 }
 
-// every fuzzEvery-th case (by hash) gets its encoding mutated
-var fuzzEvery = uint32(1)
+// every fuzzEvery-th case (by hash) gets its encoding mutated; encodings
+// longer than tieMaxLen are not handed to the model of the Go decoder, those
+// longer than fuzzMaxLen are not mutated
+var (
+	fuzzEvery  = uint32(1)
+	tieMaxLen  = 6000
+	fuzzMaxLen = 6000
+)
 
 func (k *checker) viol(class, what string) {
 	k.ok = false
@@ -130,6 +139,16 @@ func safely(f func()) (p string) {
 // check runs one case; returns false when something was reported.
 func check(c *core.Ctx, cs *c04Case) bool {
 	k := &checker{c: c, cs: cs, ok: true}
+	if cs.Enc == "foreign" {
+		if cs.Foreign == nil || len(cs.Foreign.Runs) == 0 {
+			return true
+		}
+		k.cutRng = rand.New(rand.NewSource(int64(len(cs.Foreign.Runs))*31 + int64(cs.Foreign.Width)))
+		if p := safely(func() { k.checkForeign(cs.Foreign) }); p != "" {
+			k.viol("panic", "harness panicked on a foreign stream: "+p)
+		}
+		return k.ok
+	}
 	if strings.HasPrefix(cs.Enc, "godec:") {
 		if p := safely(func() { k.checkStream(cs.Enc[6:], cs.Width, strsOf(cs)[0]) }); p != "" {
 			k.viol("panic", "harness panicked on a recorded stream: "+p)
@@ -758,7 +777,9 @@ func genStrs(rng *rand.Rand, n, kind, fixed int) []string {
 func run(c *core.Ctx) {
 	c.Res.Rule = "per (encoding, type): sequences from length buckets {0,1,2,3,7,8,9,15..17,31..33,63..65,127..130,255..258,1000,1025} x value patterns (constant, ramp, extremes, alternating, random full range, small runs; levels: constant, long runs, width-filling, group patterns; byte strings: shared prefixes, empty/long, identical, small alphabet), all RLE bit widths 0..8 (levels) and 0..32 (int32), an exhaustive sweep of all sequences of length <= 4 over {min,-1,0,1,max} for the delta encodings; destination buffers nil / dirty / oversized / reused. Checked per case: Go bytes == model bytes, Go decode(Go bytes) == input, specification decoder(Go bytes) == input. Non-trivial = at least 2 values; distinct by the JSON of the case."
 	rng := c.Rng
-	fuzzEvery = uint32(c.N(4, 1))
+	fuzzEvery = uint32(c.N(10, 1))
+	tieMaxLen = c.N(400, 6000)
+	fuzzMaxLen = c.N(120, 1500)
 
 	// corpus: regressions first
 	corpus := []c04Case{
@@ -902,6 +923,9 @@ func run(c *core.Ctx) {
 		}
 		c.Case("dst-history", fmt.Sprint(i, len(src)), len(src) >= 2)
 	}
+
+	// conforming streams Go's encoders do not write
+	runForeign(c)
 
 	// vm_compute cross-check sample
 	c.Vm("From Coq Require Import List NArith ZArith Bool.\nFrom PQ Require Import Base.Bytes Enc.DeltaBP Enc.Rle.\nImport ListNotations.\nOpen Scope Z_scope.\nOpen Scope bool_scope.")
